@@ -230,6 +230,77 @@ def run_model(tag, cases, timeout=600):
     return res
 
 
+# ---------------------------------------------------------------- extracted runner
+EXTRACT = os.path.join(CACHE, "extract")
+EXTRACT_V = ("From SF Require Import Run.RunCase.\nRequire Import Extraction ExtrOcamlBasic.\n"
+             "Extraction \"model.ml\" run_case2.\n")
+
+
+def build_extracted():
+    """Extracts run_case2 (ExtrOcamlBasic only; Z, positive, nat stay the
+    extracted inductives) and compiles it with the OCaml driver
+    coq/Run/ocaml/driver.ml.  Rebuilt whenever Run/RunCase.vo is newer."""
+    os.makedirs(EXTRACT, exist_ok=True)
+    exe = os.path.join(EXTRACT, "modelrun")
+    vo = os.path.join(COQ, "Run", "RunCase.vo")
+    drv = os.path.join(COQ, "Run", "ocaml", "driver.ml")
+    if os.path.exists(exe) and os.path.getmtime(exe) > max(os.path.getmtime(vo), os.path.getmtime(drv)):
+        return exe
+    with open(os.path.join(EXTRACT, "Extract.v"), "w") as f:
+        f.write(EXTRACT_V)
+    rc, out, err = sh(["timeout", "600", "coqc", "-noglob", "-Q", COQ, "SF", "Extract.v"], cwd=EXTRACT, check=False)
+    if rc != 0:
+        raise CheckError("extraction failed:\n" + (out + err)[-3000:])
+    shutil.copy(drv, os.path.join(EXTRACT, "driver.ml"))
+    rc, out, err = sh(["ocamlfind", "ocamlopt", "-O2", "-w", "-a", "model.mli", "model.ml", "driver.ml", "-o", "modelrun.tmp"],
+                      cwd=EXTRACT, check=False)
+    if rc != 0:
+        raise CheckError("compiling the extracted model failed:\n" + (out + err)[-3000:])
+    os.replace(os.path.join(EXTRACT, "modelrun.tmp"), exe)
+    return exe
+
+
+def _ocaml_chunk(args):
+    exe, text, mode = args
+    p = subprocess.run(["bash", "-c", "ulimit -s unlimited 2>/dev/null; exec %s %s" % (exe, mode)], input=text,
+                       stdout=subprocess.PIPE, stderr=subprocess.PIPE, text=True, timeout=3000)
+    outs = [l for l in p.stdout.splitlines() if not l.startswith("WARNING conda")]
+    return p.returncode, outs, p.stderr[-2000:]
+
+
+def run_model_diff_ocaml(cases, expected):
+    """Runs the extracted model on every case and returns (indices whose result
+    differs from `expected`, {index: model result})."""
+    exe = build_extracted()
+    n = len(cases)
+    if n == 0:
+        return [], {}
+    chunk = max(1, (n + NPROC - 1) // NPROC)
+    jobs = []
+    for i in range(0, n, chunk):
+        text = "".join(_fmt(c) + "\n" + _fmt(e) + "\n" for c, e in zip(cases[i:i + chunk], expected[i:i + chunk]))
+        jobs.append((exe, text, "diff"))
+    mism, results = [], {}
+    with cf.ThreadPoolExecutor(NPROC) as ex:
+        for k, (rc, outs, err) in enumerate(ex.map(_ocaml_chunk, jobs)):
+            want = min(chunk, n - k * chunk)
+            if rc != 0 or len(outs) != want:
+                raise CheckError("extracted model runner failed (rc %s, %d of %d lines): %s" % (rc, len(outs), want, err))
+            for j, o in enumerate(outs):
+                if o != "=":
+                    mism.append(k * chunk + j)
+                    results[k * chunk + j] = [int(t) for t in o[1:].split()]
+    return mism, results
+
+
+def run_model_ocaml(cases):
+    exe = build_extracted()
+    rc, outs, err = _ocaml_chunk((exe, "".join(_fmt(c) + "\n" for c in cases), "run"))
+    if rc != 0 or len(outs) != len(cases):
+        raise CheckError("extracted model runner failed: %s" % err)
+    return [[int(t) for t in o.split()] for o in outs]
+
+
 # ---------------------------------------------------------------- proof audit
 FORBIDDEN = re.compile(
     r"\b(Admitted|admit|Axiom|Axioms|Parameter|Parameters|Conjecture|Conjectures|Admit Obligations|"
